@@ -313,8 +313,18 @@ class DescriptorTransaction(_TransactionBase):
             #  additional check for states in self.context_states is not needed.
             #  If this assumption is wrong, that functionality must be added!)
 
+            removed_handles = set()  # everything that this transaction has removed so far
             for tr_item in self.descriptor_updates.values():
                 orig_descriptor, new_descriptor = tr_item.old, tr_item.new
+                if orig_descriptor is None and new_descriptor.parent_handle in removed_handles:
+                    # the parent was removed before in this transaction: the new descriptor goes with it (same result as
+                    # "create the child, then remove the parent")
+                    removed_handles.add(new_descriptor.Handle)
+                    self._discard_state_updates_of({new_descriptor.Handle})
+                    continue
+                if orig_descriptor is not None and new_descriptor is not None and orig_descriptor.Handle in removed_handles:
+                    # update of a descriptor that was removed together with an ancestor before in this transaction
+                    continue
                 if orig_descriptor is None:
                     # this is a create operation
                     self._logger.debug(  # noqa: PLE1205
@@ -338,6 +348,7 @@ class DescriptorTransaction(_TransactionBase):
                     all_descriptors = self._mdib.get_all_descriptors_in_subtree(orig_descriptor)
                     self._mdib.rm_descriptors_and_states(all_descriptors)
                     self._discard_state_updates_of({d.Handle for d in all_descriptors})
+                    removed_handles.update(d.Handle for d in all_descriptors)
                     proc.descr_deleted.extend([d.mk_copy() for d in all_descriptors])
                     # increment DescriptorVersion if a child descriptor is added or deleted.
                     if orig_descriptor.parent_handle is not None \
